@@ -461,6 +461,8 @@ fn tree_fp<L: linfa::Label + std::fmt::Debug>(m: &linfa_trees::DecisionTree<f64,
         }
     }
     fp.extend(m.feature_importance().iter().map(|v| v.to_bits()));
+    // the features used by the tree, in the documented breadth-first order of their first use
+    bu(&mut fp, &m.features());
     for p in m.predict(x).iter() {
         for b in format!("{:?}", p).bytes() {
             fp.push(b as u64);
